@@ -273,6 +273,9 @@ func gen(r *hx.Rand, tier string) []json.RawMessage {
 	for i := 0; i < nScripts; i++ {
 		out = append(out, hx.J(scriptIn{Kind: "script", Script: *c06.GenScript(r)}))
 	}
+	for _, k := range []string{"wb", "wtwb", "wbdram"} { // directed: filtered flush of several dirty lines
+		out = append(out, hx.J(libIn{Kind: "lib", Cfg: asm.FlushConfig(r, k, r.Range(4, 8))}))
+	}
 	for _, k := range []string{"ideal", "wb", "banked"} { // directed: contended connection
 		out = append(out, hx.J(libIn{Kind: "lib", Cfg: asm.ContendedConfig(r, k, nops)}))
 	}
